@@ -285,14 +285,17 @@ func ToCommandLine(wf WireFormat, resolveIds bool) (rule string, err error) {
 					rhs = strconv.Itoa(exitCode)
 				}
 			case uidField, euidField, suidField, fsuidField, auidField, objectUIDField:
-				rhs = strconv.Itoa(int(int32(value)))
+				rhs = strconv.FormatUint(uint64(value), 10)
+				if value == math.MaxUint32 {
+					rhs = "-1" // unset
+				}
 				if resolveIds {
 					if user, err := user.LookupId(rhs); err == nil {
 						rhs = user.Username
 					}
 				}
 			case gidField, egidField, sgidField, fsgidField, objectGIDField:
-				rhs = strconv.Itoa(int(int32(value)))
+				rhs = strconv.FormatUint(uint64(value), 10)
 				if resolveIds {
 					if group, err := user.LookupGroupId(rhs); err == nil {
 						rhs = group.Name
